@@ -91,6 +91,9 @@ def handle (l : Line) : Option (Except String String) :=
   -- `C16_http_stop_leaves_nothing`); after the handler and its post-response hook it is, and nothing is left
   | "life.handler_gate" => some (pure "entered=1 stop_pending_while_handler_runs=1 answered=1 stopped=1 after_done_at_stop=1 goroutines_left=0\thandlergate")
   | "life.metrics_inflight" => some (pure "request_running_at_stop=1 stopped=1 request_ok=1 stop_completed_before_request=0\tmetricsinflight")
+  | "life.udp_race" => some (do
+      let n ← l.nat "n"
+      pure (s!"serve_goroutine_gone_at_stop={n}/{n} stop_pending=0\tudprace"))
   | "life.metrics_race" => some (do   -- `C16_metrics_stop_leaves_nothing`, at every distance between NewServer and Stop
       let n ← l.nat "n"
       pure (s!"free_at_stop={n}/{n} stop_pending=0 goroutines_left=0\tmetricsrace"))
